@@ -13,7 +13,7 @@ Fuel == 6000
 ArgRegs == <<"a0", "a1", "a2", "a3", "a4", "a5", "a6", "a7">>
 VARIABLES i, j, phase, mA, rA, rB
 vars == <<i, j, phase, mA, rA, rB>>
-Dummy == [stack |-> <<>>, status |-> "done", rets |-> <<>>, eff |-> <<>>, fuel |-> 0, heap |-> <<>>]
+Dummy == [stack |-> <<>>, status |-> "done", rets |-> <<>>, eff |-> <<>>, fuel |-> 0, heap |-> <<>>, pz |-> 0]
 Reg0(c, inp) == [n \in RVm!Regs |->
    IF \E k \in 1 .. c.nargs : ArgRegs[k] = n THEN inp[CHOOSE k \in 1 .. c.nargs : ArgRegs[k] = n]
    ELSE IF n = "sp" THEN <<0, 0, 255, 127>>
@@ -28,9 +28,9 @@ Running(r) == r.status = "run" /\ r.steps < Fuel
 Restored(c, r, inp) == \A n \in RVm!CalleeSaved : r.x[n] = Reg0(c, inp)[n]
 Clause(c, inp) ==
   IF c.kind = "compile" THEN
-    IF mA.status # "done" THEN "ok"                                   \* no obligation (ub / fuel / unsupported source)
+    IF mA.status # "done" \/ mA.pz = 1 THEN "ok"                      \* no obligation (ub / poison / fuel / unsupported source)
     ELSE IF rB.status # "done" THEN "TargetCompletesWhenSourceDoes:" \o rB.status
-    ELSE IF \E k \in 1 .. c.nres : Trunc(rB.x[ArgRegs[k]], Len(mA.rets[k]) * 8) # mA.rets[k] THEN "SameResults"
+    ELSE IF \E k \in 1 .. c.nres : ~IsPoison(mA.rets[k]) /\ Trunc(rB.x[ArgRegs[k]], Len(mA.rets[k]) * 8) # mA.rets[k] THEN "SameResults"
     ELSE IF ~Restored(c, rB, inp) THEN "CalleeSavedRegistersAndStackPointerRestored"
     ELSE "ok"
   ELSE
